@@ -83,6 +83,11 @@ def run_case(case, tier):
         rclock = {}
 
         def do_round(adv):
+            # the manager takes its writability snapshot only in rounds with input from a connected module; in an
+            # idle or accept-only round it believes nobody is writable and the monitor would miss what it originates
+            # then. Every round of this harness therefore carries at least one request (control frames are not counted)
+            if not any(c_.pending and c_.accepted and not c_.dropped for c_ in sc.cl.values()):
+                sc.issue(["sub", pubs[0], 777777])
             rec = sc.round({"seed": rng.getrandbits(30), "adv": adv})
             rclock[rec["n"]] = rig.clock
             snaps[round(rig.clock, 6)] = {m.mod_id: m.pid for m in sc.model.mods.values() if m.connected and m.mod_id}
